@@ -190,6 +190,10 @@ class SymVC:
     def setattr(self, obj, name, v):
         self.I.set_attr(obj, name, v)
 
+    def setattr_prop(self, obj, name, v):
+        """attribute assignment through the real property setter"""
+        self._guard(lambda: self.I.set_attr(obj, name, v))
+
     may_raise = False
 
     def ghost(self, name, fn):
@@ -711,6 +715,12 @@ class NatVC:
 
     def deriv(self, value, dleaf):
         return None
+
+    def setattr_prop(self, obj, name, v):
+        import warnings
+        with warnings.catch_warnings():
+            warnings.simplefilter("ignore")
+            setattr(obj.native, name, v)
 
     def setattr(self, obj, name, v):
         setattr(obj.native, name, v)
